@@ -64,6 +64,38 @@ CMinors(T, Ti) == CMinorsFrom(T, Ti, 2, <<<<1, 0>>, <<T.main[1], Ti.main[1]>>>>)
 CTDet(T, Ti) == CMinors(T, Ti)[T.n + 1]
 CSomePivotZero(T, Ti) == \E j \in 1..T.n : CMinors(T, Ti)[j + 1] = CZeroP
 
+(* --------- Part 2c: data that are polynomials in a tiny dyadic eps (a pivot lost to rounding against its diagonal) --------- *)
+\* A number is a polynomial in eps = 2^-t with Gaussian-integer coefficients, given as the sequence of its coefficients
+\* <<re, im>> by degree (index 1 = degree 0).  With coefficients below 2^(t-1) in modulus such a polynomial vanishes at
+\* eps = 2^-t iff all its coefficients vanish, so identities between the logged dyadic numbers are decided exactly here
+\* although 2^-53 is far outside TLC's integers.
+PCoef(p, k) == IF k >= 1 /\ k <= Len(p) THEN <<p[k][1], p[k][2]>> ELSE CZeroP
+PAdd(p, q) == [k \in 1..IMax(Len(p), Len(q)) |-> <<PCoef(p, k)[1] + PCoef(q, k)[1], PCoef(p, k)[2] + PCoef(q, k)[2]>>]
+PSub(p, q) == [k \in 1..IMax(Len(p), Len(q)) |-> <<PCoef(p, k)[1] - PCoef(q, k)[1], PCoef(p, k)[2] - PCoef(q, k)[2]>>]
+RECURSIVE ConvSum(_, _, _, _)
+ConvSum(p, q, k, a) == IF a > Len(p) THEN CZeroP
+                       ELSE LET t == IF k + 1 - a >= 1 /\ k + 1 - a <= Len(q) THEN CMulP(PCoef(p, a), PCoef(q, k + 1 - a)) ELSE CZeroP
+                                r == ConvSum(p, q, k, a + 1)
+                            IN <<t[1] + r[1], t[2] + r[2]>>
+PMul(p, q) == IF Len(p) = 0 \/ Len(q) = 0 THEN <<>> ELSE TLCEval([k \in 1..(Len(p) + Len(q) - 1) |-> ConvSum(p, q, k, 1)])
+PIsZero(p) == \A k \in 1..Len(p) : PCoef(p, k) = CZeroP
+PSmall(p, bound) == \A k \in 1..Len(p) : IAbs(p[k][1]) <= bound /\ IAbs(p[k][2]) <= bound
+\* leading principal minors of a tridiagonal matrix with polynomial entries (same recurrence)
+RECURSIVE PMinorsFrom(_, _, _)
+PMinorsFrom(T, j, f) == IF j > T.n THEN f
+    ELSE PMinorsFrom(T, j + 1, Append(f, TLCEval(PSub(PMul(T.main[j], f[j]), PMul(PMul(T.sub[j - 1], T.sup[j - 1]), f[j - 1])))))
+PMinors(T) == PMinorsFrom(T, 2, << <<<<1, 0>>>>, T.main[1] >>)
+PSomePivotZero(T) == \E j \in 1..T.n : PIsZero(PMinors(T)[j + 1])
+\* row i (1-based) of T times the vector xs of polynomials
+PRowDot(T, xs, i) == LET d == PMul(T.main[i], xs[i])
+                         lo == IF i > 1 THEN PMul(T.sub[i - 1], xs[i - 1]) ELSE <<>>
+                         up == IF i < T.n THEN PMul(T.sup[i], xs[i + 1]) ELSE <<>>
+                     IN PAdd(d, PAdd(lo, up))
+\* T (xs / (L eps^K)) = r, cross-multiplied: T xs = L eps^K r
+PResidualZero(T, xs, L, K, r) ==
+    LET scale == [k \in 1..(K + 1) |-> IF k = K + 1 THEN <<L, 0>> ELSE <<0, 0>>]
+    IN \A i \in 1..T.n : PIsZero(PSub(PRowDot(T, xs, i), PMul(scale, r[i])))
+
 (* ------------------------------ Part 3 ------------------------------ *)
 \* state of the Thomas algorithm: pc in {"run", "back", "ok", "refused"}, loop index j (0-based like the code),
 \* beta, gamma and u as functions 0..n-1 -> Rat, why = the refusal message
